@@ -1,6 +1,7 @@
 package main
 
 import (
+	"strings"
 	"time"
 
 	"pgregory.net/rapid"
@@ -40,6 +41,28 @@ func c04Main(e *Env) (*res.Result, error) {
 	specs := collect(e, "C04", n, func(t *rapid.T) PkgSpec {
 		c := specgen.NewCtx(t, disabled)
 		d := c.ParamsDoc(false)
+		// a third of the specs: one operation is secured by an api key carried in the query
+		// under the very name of one of its declared query parameters
+		if rapid.IntRange(0, 2).Draw(t, "query_key_named_like_parameter") == 0 {
+		outer:
+			for _, tpl := range specgen.SortedKeys(d.Paths) {
+				for _, mo := range d.Paths[tpl].Ops() {
+					for _, prm := range mo.Op.Parameters {
+						// (a key name with $, brackets or a space is spliced into identifiers: C01-F08)
+						if prm.Ref == "" && prm.In == "query" && strings.Trim(prm.Name, "abcdefghijklmnopqrstuvwxyzABCDEFGHIJKLMNOPQRSTUVWXYZ0123456789_-") == "" {
+							d.Components = c.Comps()
+							if d.Components.SecuritySchemes == nil {
+								d.Components.SecuritySchemes = map[string]*specgen.SecurityScheme{}
+							}
+							d.Components.SecuritySchemes["querykey"] = &specgen.SecurityScheme{Type: "apiKey", In: "query", Name: prm.Name}
+							mo.Op.Security = &[]map[string][]string{{"querykey": {}}}
+							c.Tag("params:query-key-named-like-parameter")
+							break outer
+						}
+					}
+				}
+			}
+		}
 		return PkgSpec{Doc: d, Cfg: inproc.Config{DoNotEdit: true}, Meta: map[string]any{"tags": tagList(c.Tags)}}
 	})
 	return compiledMain(e, "C04", specs, false, 20*time.Minute)
